@@ -19,8 +19,11 @@ expired by autophagy (counted in its return value, and really past retention).
 from __future__ import annotations
 
 import logging
+import sys
 import threading
 from datetime import datetime as _real_datetime
+
+from rv.locks import DetectingLock, WouldHang
 
 TYPES = ["MISFOLDED_PROTEIN", "EXPIRED_CACHE", "FAILED_OPERATION", "ORPHANED_RESOURCE", "TOXIC_BYPRODUCT"]
 TOXIC = 4
@@ -47,6 +50,46 @@ def _install_handler():
         lg = logging.getLogger(LOGGER_NAME)
         lg.addHandler(_handler)
         lg.propagate = False
+
+
+def _light_stack(limit=8):
+    """(file:line function) of the innermost frames, without linecache lookups (the lock is taken ~2x per call)"""
+    f = sys._getframe(2)
+    out = []
+    while f is not None and len(out) < limit:
+        co = f.f_code
+        if not co.co_filename.endswith(("rv/locks.py", "rv/c13_rig.py")):
+            out.append("%s:%d %s" % (co.co_filename.rsplit("/", 1)[-1], f.f_lineno, co.co_name))
+        f = f.f_back
+    return out[::-1]
+
+
+class FastDetectingLock(DetectingLock):
+    """rv.locks.DetectingLock with a cheap owner-stack capture; same verdict rule: a thread that fails a non-blocking
+    acquire on a lock it already owns can never proceed."""
+
+    def acquire(self, blocking=True, timeout=-1):
+        me = threading.get_ident()
+        if self.inner.acquire(False):
+            if self.owner == me:
+                self.reentrant_acquisitions += 1
+            else:
+                self.owner_stack = _light_stack()
+            self.owner = me
+            self.depth += 1
+            self.acquisitions += 1
+            return True
+        if self.owner == me:
+            raise WouldHang(self.name, self.owner_stack, _light_stack())
+        if not blocking:
+            return False
+        ok = self.inner.acquire(True, timeout)
+        if ok:
+            self.owner = me
+            self.depth += 1
+            self.acquisitions += 1
+            self.owner_stack = _light_stack()
+        return ok
 
 
 class Resource:
@@ -104,7 +147,9 @@ class Rig:
         self.problems = []      # (mechanism, what)
         self.trace = []
         self.stats = {}
-        self.autophagy_returns = 0
+        self.autophagy_unattributed = 0     # removals reported by autophagy calls whose before/after queue was not observable (thread mode)
+        self._alloc = threading.Lock()
+        self.last_ctx = None
         self.daemon = None
         self.reached = set()    # "auto", "emergency", ...
         # --- wrap every digester (instance attribute), shadow ingest on the instance
@@ -136,11 +181,11 @@ class Rig:
         if c is not None and c.get("vid") is not None and c.get("item") is None:
             vid = c["vid"]
         else:
-            vid = len(self.items)
+            with self._alloc:
+                vid = len(self.items)
+                self.items.append(None)
             if c is not None:
                 c["extra_ingests"] = c.get("extra_ingests", 0) + 1
-        while len(self.items) <= vid:
-            self.items.append(None)
         if id(waste) in self.by_obj:
             self.problem("same-waste-object-ingested-twice", "harness error: waste object re-ingested")
         item = Item(vid, waste, c["kind"] if c else "?", c["behav"] if c else "d", c["tid"] if c else -1)
@@ -246,9 +291,11 @@ class Rig:
         lys = self.lys
         c = {"kind": kind, "op": op, "tid": me, "events": [], "item": None, "vid": None, "behav": "d"}
         if kind in INGEST_KINDS:
-            c["vid"] = len(self.items)
-            self.items.append(None)
+            with self._alloc:
+                c["vid"] = len(self.items)
+                self.items.append(None)
             c["behav"] = op[-1]
+        self.last_ctx = c
         before = list(lys._queue) if (kind == "autophagy" and not self.threaded) else None
         now_v = self.clock.time()
         self.cur[me] = c
@@ -306,7 +353,10 @@ class Rig:
         elif kind in INGEST_KINDS:
             it = c.get("item")
             if it is None:
-                self.problem("ingest-not-forwarded", "%s did not hand any Waste to Lysosome.ingest" % kind)
+                if kind == "prune":      # the daemon is only one more ingest source; whether it flushes is not C13's business
+                    self._bump("prune_without_ingest")
+                else:
+                    self.problem("ingest-not-forwarded", "%s returned but no Waste reached the queue machinery (Lysosome.ingest)" % kind)
             if c.get("extra_ingests"):
                 self.problem("ingest-forwarded-twice", "%s handed %d extra Waste objects to Lysosome.ingest" % (kind, c["extra_ingests"]))
             paths = set(e[2][0] for e in digs)
@@ -323,16 +373,13 @@ class Rig:
                 if not (logged or returned):
                     self.problem("auto-digest-error-unreported",
                                  "%d digester failure(s) during the auto-digest triggered by %s: the item(s) left the queue uncounted and nothing reports the failure (no log record, no result)" % (n_auto_r, kind))
-            if kind == "prune":
-                pr = ret[1] if isinstance(ret, tuple) and len(ret) == 2 else None
-                if pr is None or getattr(pr, "waste_items_flushed", None) != 1:
-                    self.problem("prune-result", "forced check_and_prune returned %r" % (ret,))
         elif kind == "autophagy":
             tr.append("removed=%r" % (ret,))
             if not isinstance(ret, int) or isinstance(ret, bool) or ret < 0:
                 self.problem("autophagy-return-mismatch", "autophagy returned %r" % (ret,))
                 ret = 0
-            self.autophagy_returns += ret
+            if before is None:
+                self.autophagy_unattributed += ret
             if digs:
                 self.problem("autophagy-digests", "autophagy invoked digesters")
             if before is not None:
@@ -406,22 +453,22 @@ class Rig:
             now_v = self.clock.time() if now_v is None else now_v
             young = [i for i in unaccounted if now_v - i.created_ts < self.retention_s - EXPIRY_MARGIN_S]
             old = [i for i in unaccounted if i not in young]
-            if len(old) == self.autophagy_returns:
+            if len(old) == self.autophagy_unattributed:
                 for i in old:
                     i.expired = True
                     self._bump("items_expired")
                 unaccounted = young
-            elif len(unaccounted) == self.autophagy_returns:
+            elif len(unaccounted) == self.autophagy_unattributed:
                 for i in young:
                     self.problem("autophagy-removes-unexpired", "item %d left the queue through autophagy although younger than the retention" % i.vid)
                 unaccounted = []
             else:
-                self.problem("autophagy-return-mismatch" if self.autophagy_returns > len(old) else "item-lost",
+                self.problem("autophagy-return-mismatch" if self.autophagy_unattributed > len(old) else "item-lost",
                              "%d item(s) in no state (%s), autophagy reported %d removal(s)" % (
-                                 len(unaccounted), [i.vid for i in unaccounted], self.autophagy_returns))
+                                 len(unaccounted), [i.vid for i in unaccounted], self.autophagy_unattributed))
                 unaccounted = []
-        elif self.threaded and self.autophagy_returns:
-            self.problem("autophagy-return-mismatch", "autophagy reported %d removal(s) but every item is queued or digested" % self.autophagy_returns)
+        elif self.threaded and self.autophagy_unattributed:
+            self.problem("autophagy-return-mismatch", "autophagy reported %d removal(s) but every item is queued or digested" % self.autophagy_unattributed)
         for item in unaccounted:
             self.problem("item-lost", "item %d (%s, ingested by %s) is neither queued, digested, reported as error, emergency-dropped nor expired" % (item.vid, item.tname, item.kind))
         n_items = sum(1 for i in self.items if i is not None)
